@@ -133,28 +133,328 @@ theorem find_filter_same {α} (xs : List α) (p q : α → Bool)
         | true => exact absurd (hx hpx) hq
       rw [List.filter_cons_of_neg hq, ih']; simp only [List.find?_cons, hp]
 
-theorem valOf_applyDiff (l r : List (Item κ η)) (d u : List κ) (k : κ) :
-    valOf (applyDiff l d u r) k =
-      if k ∈ u then valOf r k else if k ∈ d then none else valOf l k := by
-  unfold valOf applyDiff
-  rw [List.find?_append]
-  by_cases hu : k ∈ u
-  · simp only [hu, if_true]
-    rw [find_filter_none l _ _ (by intro x _; grind), find_filter_same r _ _ (by intro x _; grind)]
-    simp
-  · simp only [hu, if_false]
-    rw [find_filter_none r _ _ (by intro x _; grind)]
-    by_cases hd : k ∈ d
-    · simp only [hd, if_true]
-      rw [find_filter_none l _ _ (by intro x _; grind)]; rfl
-    · simp only [hd, if_false]
-      rw [find_filter_same l _ _ (by intro x _; grind)]; simp
-
 theorem valOf_mem (c : Cfg κ η) (xs : List (Item κ η)) (hu : UniqueKeys c xs) (x : Item κ η)
     (hx : x ∈ xs) (hk : c.skip x.id = false) : valOf xs x.id = some x.val := by
   unfold valOf; rw [find_unique c xs hu x hx hk]; rfl
 
 theorem valOf_absent (xs : List (Item κ η)) (k : κ) (h : ¬ ∃ x ∈ xs, x.id = k) : valOf xs k = none := by
   unfold valOf; rw [(find_none_iff xs k).mpr h]; rfl
+
+
+/-! ### batching -/
+
+theorem batchesGo_flatten {α : Type} (lim : Nat) (size : α → Nat) (cur : List α) (acc : Nat) (xs : List α) :
+    (batchesGo lim size cur acc xs).flatten = cur.reverse ++ xs := by
+  induction xs generalizing cur acc with
+  | nil =>
+    unfold batchesGo
+    cases cur <;> simp
+  | cons x xs ih =>
+    unfold batchesGo
+    split
+    · rw [ih]; simp
+    · simp [ih]
+
+/-- batching neither drops, duplicates nor reorders anything -/
+theorem batches_flatten {α : Type} (lim : Nat) (size : α → Nat) (xs : List α) :
+    (batches lim size xs).flatten = xs := by
+  unfold batches; rw [batchesGo_flatten]; simp
+
+theorem batchesGo_nonempty {α : Type} (lim : Nat) (size : α → Nat) (hlim : 0 < lim) (cur : List α) (acc : Nat)
+    (xs : List α) (hc : cur = [] → acc = 0) : ∀ b ∈ batchesGo lim size cur acc xs, b ≠ [] := by
+  induction xs generalizing cur acc with
+  | nil =>
+    unfold batchesGo
+    cases cur <;> simp
+  | cons x xs ih =>
+    unfold batchesGo
+    split
+    · exact ih (x :: cur) _ (by simp)
+    · intro b hb
+      rcases List.mem_cons.mp hb with h | h
+      · subst h
+        cases cur with
+        | nil => have := hc rfl; omega
+        | cons c cs => simp
+      · exact ih [x] _ (by simp) b h
+
+theorem batches_nil {α : Type} (lim : Nat) (size : α → Nat) : batches lim size ([] : List α) = [] := by
+  simp [batches, batchesGo]
+
+/-! ### executing the writes on the fold-keyed store -/
+
+theorem foldl_execOp_del (fold : κ → κ) (bs : List (List κ)) (s : List (Item κ η)) :
+    (bs.map Op.del).foldl (execOp fold) s = bs.flatten.foldl (sdel fold) s := by
+  induction bs generalizing s with
+  | nil => rfl
+  | cons b bs ih => simp [execOp, List.foldl_append, ih]
+
+theorem foldl_execOp_ups (fold : κ → κ) (bs : List (List (Item κ η))) (s : List (Item κ η)) :
+    (bs.map Op.ups).foldl (execOp fold) s = bs.flatten.foldl (sups fold) s := by
+  induction bs generalizing s with
+  | nil => rfl
+  | cons b bs ih => simp [execOp, List.foldl_append, ih]
+
+theorem foldl_sdel (fold : κ → κ) (ks : List κ) (s : List (Item κ η)) :
+    ks.foldl (sdel fold) s = s.filter (fun x => !(ks.map fold).contains (fold x.id)) := by
+  induction ks generalizing s with
+  | nil => simp; exact (List.filter_eq_self.mpr (fun _ _ => rfl)).symm
+  | cons k ks ih =>
+    simp only [List.foldl_cons, ih, sdel, List.filter_filter, List.map_cons]
+    apply List.filter_congr
+    intro x _
+    simp only [List.contains_cons, Bool.not_or]
+    cases h1 : (fold x.id == fold k) <;> cases h2 : (List.map fold ks).contains (fold x.id) <;> simp_all [bne]
+
+theorem foldl_sups (fold : κ → κ) (us : List (Item κ η)) (s : List (Item κ η))
+    (hU : us.Pairwise fun a b => fold a.id ≠ fold b.id) :
+    us.foldl (sups fold) s = s.filter (fun x => !(us.map fun y => fold y.id).contains (fold x.id)) ++ us := by
+  induction us generalizing s with
+  | nil => simp; exact (List.filter_eq_self.mpr (fun _ _ => rfl)).symm
+  | cons u us ih =>
+    have hU' := List.pairwise_cons.mp hU
+    simp only [List.foldl_cons]
+    rw [ih _ hU'.2]
+    simp only [sups, List.filter_append, List.filter_filter, List.map_cons, List.append_assoc]
+    have hu : ([u].filter fun x => !(us.map fun y => fold y.id).contains (fold x.id)) = [u] := by
+      have hc : (us.map fun y => fold y.id).contains (fold u.id) = false := by
+        simp only [List.contains_eq_mem, List.mem_map, decide_eq_false_iff_not]
+        intro ⟨y, hy, e⟩
+        exact hU'.1 y hy e.symm
+      simp only [List.filter_cons, List.filter_nil, hc, Bool.not_false, if_true]
+    rw [hu]
+    simp only [List.cons_append, List.nil_append]
+    congr 1
+    apply List.filter_congr
+    intro x _
+    simp only [List.contains_cons, Bool.not_or]
+    cases h1 : (fold x.id == fold u.id) <;> cases h2 : (us.map fun y => fold y.id).contains (fold x.id) <;> simp_all [bne]
+
+theorem roundFinal_eq (R : Rnd κ η) (last ridx : Nat) (l r : List (Item κ η)) :
+    roundFinal R last ridx l r =
+      (roundUps R last ridx l r).foldl (sups R.fold) ((roundDels R last ridx l r).foldl (sdel R.fold) l) := by
+  unfold roundFinal roundOps
+  rw [List.foldl_append, foldl_execOp_del, foldl_execOp_ups, batches_flatten, batches_flatten]
+
+theorem roundFinalSwapped_eq (R : Rnd κ η) (last ridx : Nat) (l r : List (Item κ η)) :
+    roundFinalSwapped R last ridx l r =
+      (roundDels R last ridx l r).foldl (sdel R.fold) ((roundUps R last ridx l r).foldl (sups R.fold) l) := by
+  unfold roundFinalSwapped
+  rw [List.foldl_append, foldl_execOp_del, foldl_execOp_ups, batches_flatten, batches_flatten]
+
+/-! ### fold-unique stores -/
+
+/-- a store table: non-skipped rows have pairwise distinct FOLDED keys (the memdb primary index);
+    skipped keys (legacy tokens with an empty accessor) may repeat -/
+def FoldUnique (R : Rnd κ η) (xs : List (Item κ η)) : Prop :=
+  xs.Pairwise fun a b => R.fold a.id ≠ R.fold b.id ∨ (R.cfg.skip a.id = true ∧ R.cfg.skip b.id = true)
+
+theorem FoldUnique.unique {R : Rnd κ η} {xs : List (Item κ η)} (h : FoldUnique R xs) : UniqueKeys R.cfg xs := by
+  unfold FoldUnique at h; unfold UniqueKeys
+  apply List.Pairwise.imp _ h
+  intro a b hab
+  rcases hab with h1 | h2
+  · left; intro e; exact h1 (by rw [e])
+  · right; exact h2
+
+theorem FoldUnique.inj {R : Rnd κ η} {xs : List (Item κ η)} (h : FoldUnique R xs) :
+    ∀ a ∈ xs, ∀ b ∈ xs, R.fold a.id = R.fold b.id → R.cfg.skip a.id = false → a = b := by
+  induction xs with
+  | nil => intro a ha; simp at ha
+  | cons z zs ih =>
+    have hz := List.pairwise_cons.mp h
+    intro a ha b hb e hs
+    rcases List.mem_cons.mp ha with ha | ha <;> rcases List.mem_cons.mp hb with hb | hb
+    · rw [ha, hb]
+    · rw [ha] at e hs
+      rcases hz.1 b hb with h1 | h2
+      · exact absurd e h1
+      · rw [h2.1] at hs; cases hs
+    · rw [hb] at e
+      rcases hz.1 a ha with h1 | h2
+      · exact absurd e.symm h1
+      · rw [h2.2] at hs; cases hs
+    · exact ih hz.2 a ha b hb e hs
+
+theorem pairwise_insertBy {Rel : Item κ η → Item κ η → Prop} (hs : ∀ a b, Rel a b → Rel b a)
+    (lt : κ → κ → Bool) (x : Item κ η) (ys : List (Item κ η)) (hx : ∀ y ∈ ys, Rel x y)
+    (hy : ys.Pairwise Rel) : (insertBy lt x ys).Pairwise Rel := by
+  induction ys with
+  | nil => simp [insertBy]
+  | cons y ys ih =>
+    have hy' := List.pairwise_cons.mp hy
+    unfold insertBy
+    split
+    · exact List.pairwise_cons.mpr ⟨hx, hy⟩
+    · apply List.pairwise_cons.mpr
+      refine ⟨?_, ih (fun z hz => hx z (List.mem_cons_of_mem _ hz)) hy'.2⟩
+      intro z hz
+      rcases (mem_insertBy lt x ys z).mp hz with h | h
+      · subst h; exact hs _ _ (hx y List.mem_cons_self)
+      · exact hy'.1 z h
+
+theorem pairwise_sortBy {Rel : Item κ η → Item κ η → Prop} (hs : ∀ a b, Rel a b → Rel b a)
+    (lt : κ → κ → Bool) (xs : List (Item κ η)) (h : xs.Pairwise Rel) : (sortBy lt xs).Pairwise Rel := by
+  induction xs with
+  | nil => simp [sortBy]
+  | cons x xs ih =>
+    have h' := List.pairwise_cons.mp h
+    simp only [sortBy]
+    exact pairwise_insertBy hs lt x _ (fun y hy => h'.1 y ((mem_sortBy lt xs y).mp hy)) (ih h'.2)
+
+theorem foldUnique_sortBy {R : Rnd κ η} {xs : List (Item κ η)} (h : FoldUnique R xs) :
+    FoldUnique R (sortBy R.cfg.lt xs) := by
+  apply pairwise_sortBy _ _ _ h
+  intro a b hab
+  rcases hab with h1 | h2
+  · left; exact fun e => h1 e.symm
+  · right; exact ⟨h2.2, h2.1⟩
+
+
+/-! ### reading the store after the writes -/
+
+theorem valOf_append_left_none (a b : List (Item κ η)) (k : κ) (h : ¬ ∃ x ∈ a, x.id = k) :
+    valOf (a ++ b) k = valOf b k := by
+  unfold valOf; rw [List.find?_append, (find_none_iff a k).mpr h]; simp
+
+theorem valOf_append_right_none (a b : List (Item κ η)) (k : κ) (h : ¬ ∃ x ∈ b, x.id = k) :
+    valOf (a ++ b) k = valOf a k := by
+  unfold valOf; rw [List.find?_append, (find_none_iff b k).mpr h]; simp
+
+/-- the store after deleting the keys `d` and then upserting the items `us` -/
+def afterWrites (fold : κ → κ) (l : List (Item κ η)) (d : List κ) (us : List (Item κ η)) : List (Item κ η) :=
+  us.foldl (sups fold) (d.foldl (sdel fold) l)
+
+theorem afterWrites_form (fold : κ → κ) (l : List (Item κ η)) (d : List κ) (us : List (Item κ η))
+    (hU : us.Pairwise fun a b => fold a.id ≠ fold b.id) :
+    afterWrites fold l d us =
+      ((l.filter fun x => !(d.map fold).contains (fold x.id)).filter
+          fun x => !(us.map fun y => fold y.id).contains (fold x.id)) ++ us := by
+  unfold afterWrites; rw [foldl_sups _ _ _ hU, foldl_sdel]
+
+theorem mem_afterWrites (fold : κ → κ) (l : List (Item κ η)) (d : List κ) (us : List (Item κ η))
+    (hU : us.Pairwise fun a b => fold a.id ≠ fold b.id) (z : Item κ η) :
+    z ∈ afterWrites fold l d us ↔
+      (z ∈ l ∧ (∀ k ∈ d, fold z.id ≠ fold k) ∧ (∀ u ∈ us, fold z.id ≠ fold u.id)) ∨ z ∈ us := by
+  rw [afterWrites_form _ _ _ _ hU]
+  simp only [List.mem_append, List.mem_filter, Bool.not_eq_true', List.contains_eq_mem, List.mem_map,
+    decide_eq_false_iff_not, not_exists, not_and]
+  constructor
+  · rintro (⟨⟨h1, h2⟩, h3⟩ | h)
+    · left; exact ⟨h1, fun k hk e => h2 k hk e.symm, fun u hu e => h3 u hu e.symm⟩
+    · right; exact h
+  · rintro (⟨h1, h2, h3⟩ | h)
+    · left; exact ⟨⟨h1, fun k hk e => h2 k hk e.symm⟩, fun u hu e => h3 u hu e.symm⟩
+    · right; exact h
+
+theorem find_of_foldPairwise (fold : κ → κ) (us : List (Item κ η))
+    (hU : us.Pairwise fun a b => fold a.id ≠ fold b.id) (x : Item κ η) (hx : x ∈ us) :
+    us.find? (fun y => y.id = x.id) = some x := by
+  induction us with
+  | nil => simp at hx
+  | cons y ys ih =>
+    have hU' := List.pairwise_cons.mp hU
+    simp only [List.find?_cons]
+    by_cases hyx : y.id = x.id
+    · simp only [hyx, decide_true]
+      rcases List.mem_cons.mp hx with h | h
+      · rw [h]
+      · exact absurd (by rw [hyx]) (hU'.1 x h)
+    · simp only [hyx, decide_false]
+      rcases List.mem_cons.mp hx with h | h
+      · exact absurd (by rw [h]) hyx
+      · exact ih hU'.2 h
+
+/-- an upserted object is what the store then holds under its exact key -/
+theorem valOf_afterWrites_ups (fold : κ → κ) (l : List (Item κ η)) (d : List κ) (us : List (Item κ η))
+    (hU : us.Pairwise fun a b => fold a.id ≠ fold b.id) (x : Item κ η) (hx : x ∈ us) :
+    valOf (afterWrites fold l d us) x.id = some x.val := by
+  rw [afterWrites_form _ _ _ _ hU, valOf_append_left_none]
+  · unfold valOf; rw [find_of_foldPairwise fold us hU x hx]; rfl
+  · rintro ⟨y, hy, e⟩
+    simp only [List.mem_filter, Bool.not_eq_true', List.contains_eq_mem, List.mem_map,
+      decide_eq_false_iff_not, not_exists, not_and] at hy
+    exact hy.2 x hx (by rw [e])
+
+/-- a key that folds onto a deleted key or an upserted one, but is not itself upserted, is gone -/
+theorem valOf_afterWrites_gone (fold : κ → κ) (l : List (Item κ η)) (d : List κ) (us : List (Item κ η))
+    (hU : us.Pairwise fun a b => fold a.id ≠ fold b.id) (k : κ) (hk : ¬ ∃ u ∈ us, u.id = k)
+    (hg : (∃ k' ∈ d, fold k = fold k') ∨ ∃ u ∈ us, fold k = fold u.id) :
+    valOf (afterWrites fold l d us) k = none := by
+  rw [afterWrites_form _ _ _ _ hU, valOf_append_right_none _ _ _ hk]
+  apply valOf_absent
+  rintro ⟨y, hy, e⟩
+  simp only [List.mem_filter, Bool.not_eq_true', List.contains_eq_mem, List.mem_map,
+    decide_eq_false_iff_not, not_exists, not_and] at hy
+  rcases hg with ⟨k', hk', e'⟩ | ⟨u, hu, e'⟩
+  · exact hy.1.2 k' hk' (by rw [e, e'])
+  · exact hy.2 u hu (by rw [e, e'])
+
+/-- any other key keeps its row -/
+theorem valOf_afterWrites_kept (fold : κ → κ) (l : List (Item κ η)) (d : List κ) (us : List (Item κ η))
+    (hU : us.Pairwise fun a b => fold a.id ≠ fold b.id) (k : κ)
+    (hd : ∀ k' ∈ d, fold k ≠ fold k') (hu : ∀ u ∈ us, fold k ≠ fold u.id) :
+    valOf (afterWrites fold l d us) k = valOf l k := by
+  have hk : ¬ ∃ u ∈ us, u.id = k := by
+    rintro ⟨u, hu', e⟩; exact hu u hu' (by rw [e])
+  rw [afterWrites_form _ _ _ _ hU, valOf_append_right_none _ _ _ hk]
+  unfold valOf
+  rw [find_filter_same, find_filter_same]
+  · intro x _ hx
+    have e : x.id = k := by simpa using hx
+    simp only [Bool.not_eq_true', List.contains_eq_mem, List.mem_map, decide_eq_false_iff_not, not_exists, not_and]
+    intro k' hk' e'
+    exact hd k' hk' (by rw [← e, e'])
+  · intro x _ hx
+    have e : x.id = k := by simpa using hx
+    simp only [Bool.not_eq_true', List.contains_eq_mem, List.mem_map, decide_eq_false_iff_not, not_exists, not_and]
+    intro u hu' e'
+    exact hu u hu' (by rw [← e, e'])
+
+/-! ### what the round deletes and upserts -/
+
+theorem roundFinal_afterWrites (R : Rnd κ η) (last ridx : Nat) (l r : List (Item κ η)) :
+    roundFinal R last ridx l r = afterWrites R.fold l (roundDels R last ridx l r) (roundUps R last ridx l r) :=
+  roundFinal_eq R last ridx l r
+
+theorem mem_roundDels (R : Rnd κ η) (hc : Lawful R.cfg) (last ridx : Nat) (l r : List (Item κ η))
+    (hl : FoldUnique R l) (hr : FoldUnique R r) (k : κ) :
+    k ∈ roundDels R last ridx l r ↔
+      (R.cfg.skip k = false ∧ R.noRepl k = false ∧ (∃ y ∈ l, y.id = k) ∧ ¬ ∃ x ∈ r, x.id = k) := by
+  have hd := mem_dels R.cfg hc (effLast last ridx) _ _ (sortBy_sorted R.cfg hc l hl.unique)
+    (sortBy_sorted R.cfg hc r hr.unique) k
+  simp only [mem_sortBy] at hd
+  unfold roundDels
+  simp only [List.mem_filter, hd, Bool.not_eq_true']
+  constructor
+  · rintro ⟨⟨a, b, c⟩, d⟩; exact ⟨a, d, b, c⟩
+  · rintro ⟨a, d, b, c⟩; exact ⟨⟨a, b, c⟩, d⟩
+
+theorem mem_roundUps (R : Rnd κ η) (last ridx : Nat) (l r : List (Item κ η)) (x : Item κ η) :
+    x ∈ roundUps R last ridx l r ↔
+      (x ∈ r ∧ R.noRepl x.id = false ∧
+        x.id ∈ (diff R.cfg (effLast last ridx) (sortBy R.cfg.lt l) (sortBy R.cfg.lt r)).2) := by
+  unfold roundUps
+  simp only [List.mem_filter, mem_sortBy, Bool.and_eq_true, List.contains_eq_mem, decide_eq_true_eq,
+    Bool.not_eq_true']
+  constructor
+  · rintro ⟨a, b, c⟩; exact ⟨a, c, b⟩
+  · rintro ⟨a, c, b⟩; exact ⟨a, b, c⟩
+
+theorem roundUps_pairwise (R : Rnd κ η) (hc : Lawful R.cfg) (last ridx : Nat) (l r : List (Item κ η))
+    (hl : FoldUnique R l) (hr : FoldUnique R r) :
+    (roundUps R last ridx l r).Pairwise fun a b => R.fold a.id ≠ R.fold b.id := by
+  have hu := fun k => mem_ups R.cfg hc (effLast last ridx) _ _ (sortBy_sorted R.cfg hc l hl.unique)
+    (sortBy_sorted R.cfg hc r hr.unique) k
+  have hp : (roundUps R last ridx l r).Pairwise
+      fun a b => R.fold a.id ≠ R.fold b.id ∨ (R.cfg.skip a.id = true ∧ R.cfg.skip b.id = true) := by
+    unfold roundUps
+    exact List.Pairwise.filter _ (foldUnique_sortBy hr)
+  apply List.Pairwise.imp_of_mem _ hp
+  intro a b ha _ hab
+  rcases hab with h | h
+  · exact h
+  · have := ((hu a.id).mp ((mem_roundUps R last ridx l r a).mp ha).2.2).1
+    rw [h.1] at this; cases this
 
 end CV.Repl
